@@ -279,8 +279,11 @@ def gc_program(rng):
                 live.append(v)
             elif r < 60 and live:
                 v = rng.choice(live)
-                how = rng.below(6)
-                if how == 5:
+                how = rng.below(8)
+                if how >= 6:
+                    # __gc inserted into (or replaced in) the metatable the value currently has, without a new setmetatable
+                    src.append("%sdo local m = getmetatable(%s) if m then m.__gc = function(x) emit('gc', '%s', x.tag) end end end" % (ind, v, fresh("late")))
+                elif how == 5:
                     src.append("%ssetmetatable(%s, getmetatable(%s))" % (ind, v, v))     # same metatable: still a re-marking
                 elif how < 3:
                     src.append("%ssetmetatable(%s, fin('%s'))" % (ind, v, fresh("f")))
@@ -290,7 +293,8 @@ def gc_program(rng):
                     src.append("%ssetmetatable(%s, nil)" % (ind, v))
             elif r < 85 and depth < 3:
                 kind = rng.choice(["ok", "ok", "error", "kill"])
-                src.append("%sdo local ctx = runtime.callcontext({kill = {cpu = 1000000}}, function()" % ind)
+                src.append("%sdo local ctx = runtime.callcontext({kill = {%s}}, function()" % (ind, rng.choice(
+                    ["cpu = 1000000", "memory = 100000000", "cpu = 1000000, memory = 100000000", "cpu = 1000000"])))
                 body(depth + 1, ind + "  ")
                 if kind == "error":
                     src.append("%s  error('boom')" % ind)
